@@ -479,6 +479,7 @@ class MistakeShock(Harness):
 # =================================================================================================
 # C15
 class LimitRuleFn(Harness):
+    cvc5_recheck = True      # thorough tier: obligations re-discharged with cvc5
     name = "LimitRuleFn"
     title = "real PriceLimitRule.get_limited_price / hooked_before_order on one order"
     what_symbolic = "order price (real > 0), trigger rate r >= 0 (real); reference price from a concrete set"
